@@ -18,8 +18,12 @@ A case: {'filters': [...], 'kwargs': {...}, 'order': ..., 'default_order': ..., 
          'scalars': bool}; a filter is null (ignored argument), ['c', field, op, value] (3-tuple),
 ['c2', field, value] (2-tuple), ['or', [filters], {kwargs}].  Values: JSON scalars, or
 {'list': [...]}, {'tuple': [...]}, {'set': [...]}.
+Optional key 'table': 'big' runs the case on the 1500-row table `tb` (same columns) - the table of the
+long IN / NOT IN value lists (more values than LONG_LIST, the per-list limits / chunk sizes of db engines
+and drivers); absent = the 6-row table `t`.
 """
 import random
+import re
 import sqlite3
 
 from ak import mtd_sql
@@ -35,6 +39,48 @@ ROWS = [
 ]
 COLS = ['id', 'n', 's']
 SELECT = "SELECT id, n, s FROM t"
+
+# the big table: enough rows for value lists of more than a thousand members, about half of which are
+# present; NULLs and duplicates in n and s, quotes in s
+BIG_N = 1500
+
+
+def _big_row(i):
+    n = None if i % 13 == 0 else (i * 7) % 1000
+    if i % 17 == 0:
+        s_ = None
+    elif i % 19 == 0:
+        s_ = "o'%d" % i
+    else:
+        s_ = "v%d" % (i % 700)
+    return (i, n, s_)
+
+
+BIG_ROWS = [_big_row(i) for i in range(1, BIG_N + 1)]
+TABLES = {None: ('t', ROWS), 'big': ('tb', BIG_ROWS)}
+LONG_LIST = 500         # a value list with more members than this is "long"
+LONG_LENS_QUICK = [501, 600, 1001, 1200]
+LONG_LENS = [501, 512, 600, 999, 1000, 1001, 1200, 1501, 2100]
+# value pools of the long lists: about half of the members occur in the table
+BIG_POOLS = {
+    'id': list(range(1, 2 * BIG_N + 1)),
+    'n': list(range(-500, 2000)),
+    's': ["v%d" % k for k in range(2100)] + ["o'%d" % k for k in range(0, 2 * BIG_N, 19)] + ['', '%', 'zz9zz'],
+}
+BIG_SCALARS = {
+    'id': [1, 2, 750, 1500, 2000],
+    'n': [None, 0, 5, 500, 993, -5],
+    's': [None, '', 'v0', 'v12', 'v699', "o'19", 'zz9zz'],
+}
+BIG_LIKE = {'n': ['%', '7%', '_', '%1', '99_'], 's': ['%', 'v1%', "o'%", '%9', 'v_', 'V12', '']}
+
+
+def table_of(case):
+    return TABLES[case.get('table')]
+
+
+def select_of(case):
+    return "SELECT id, n, s FROM " + table_of(case)[0]
 
 NUM_VALUES = [None, 0, 1, 2, 3, 7731, -5]
 STR_VALUES = [None, '', "o'q", '%', 'abc', 'ABC', "x'; DROP TABLE t; --", 'zz9zz']
@@ -149,6 +195,29 @@ def sql_like(value, pattern):
     return m(0, 0)
 
 
+_IN_INDEX = {}
+
+
+def in3(a, c):
+    """three-valued  a = v1 OR a = v2 OR ...  over the (non-empty) member list c[3]: the same value as
+    t_or([sql_eq(a, v) for v in c[3]]), computed through an index of the members (lists of > 1000 members
+    against > 1000 rows)"""
+    vs = c[3]
+    if len(vs) <= 16:
+        return t_or([sql_eq(a, v) for v in vs])
+    ent = _IN_INDEX.get(id(vs))
+    if ent is None or ent[0] is not vs:
+        if len(_IN_INDEX) > 64:
+            _IN_INDEX.clear()
+        ent = (vs, {v for v in vs if v is not None}, any(v is None for v in vs))
+        _IN_INDEX[id(vs)] = ent
+    if a is None:
+        return None                 # NULL = v is unknown for every member
+    if a in ent[1]:             # Python == of the member, as in sql_eq
+        return True
+    return None if ent[2] else False
+
+
 def holds3(c, row):
     """three-valued truth of the intended condition on a row (dict)"""
     k = c[0]
@@ -165,7 +234,7 @@ def holds3(c, row):
             raise AssertionError("harness: cross-type comparison generated")
         return {'=': a == v, '!=': a != v, '>': a > v, '<': a < v, '>=': a >= v, '<=': a <= v}[op]
     if k == 'in':
-        r = t_or([sql_eq(row[c[1]], v) for v in c[3]])
+        r = in3(row[c[1]], c)
         return t_not(r) if c[2] else r
     if k == 'like':
         r = sql_like(row[c[1]], c[3])
@@ -206,7 +275,7 @@ def order_key(order):
 
 def expected_rows(case):
     conj = whole_intent(case)
-    rows = [dict(zip(COLS, r)) for r in ROWS]
+    rows = [dict(zip(COLS, r)) for r in table_of(case)[1]]
     sel = [r for r in rows if all(holds3(c, r) is True for c in conj)]
     order = case['order'] if case['order'] is not None else case['default_order']
     if order is not None:
@@ -251,6 +320,8 @@ def db():
         c = sqlite3.connect(':memory:')
         c.execute("CREATE TABLE t (id INTEGER PRIMARY KEY, n INTEGER, s TEXT)")
         c.executemany("INSERT INTO t VALUES (?, ?, ?)", ROWS)
+        c.execute("CREATE TABLE tb (id INTEGER PRIMARY KEY, n INTEGER, s TEXT)")
+        c.executemany("INSERT INTO tb VALUES (?, ?, ?)", BIG_ROWS)
         c.commit()
         _DB = c
     return _DB
@@ -272,7 +343,7 @@ def execute(case):
     """-> (rows, log, exception)"""
     conn = SpyConn(db())
     try:
-        m = mtd_sql.SqlMethod(SELECT, order_by=case['default_order'])
+        m = mtd_sql.SqlMethod(select_of(case), order_by=case['default_order'])
         args = [to_arg(f) for f in case['filters']]
         kw = {k: dval(v) for k, v in case['kwargs'].items()}
         if case['order'] is not None:
@@ -290,16 +361,47 @@ def execute(case):
         return None, conn.log, e
 
 
-def distinctive_texts(conj):
+def distinctive_texts(conj, select=SELECT):
     out = set()
     for kind, v in (p for c in conj for p in params_of(c)):
         for x in (v if kind == 'set' else [v]):
             if x is None:
                 continue
             t = str(x)
-            if len(t) >= 3 and t not in SELECT and t.upper() not in ('NOT', 'AND', 'NULL', 'LIKE', 'FALSE'):
+            if len(t) >= 3 and t not in select and t.upper() not in ('NOT', 'AND', 'NULL', 'LIKE', 'FALSE'):
                 out.add(t)
     return out
+
+
+def short(x):
+    """repr for messages: long collections and long placeholder runs are abbreviated"""
+    if isinstance(x, str):
+        return re.sub(r"\?(?:, \?){11,}", lambda m: f"?, ..<{m.group(0).count('?')} placeholders>.., ?", x)
+    if isinstance(x, (list, tuple, set, frozenset)) and len(x) > 12:
+        seq = sorted(x, key=repr) if isinstance(x, (set, frozenset)) else list(x)
+        body = (', '.join(short_r(v) for v in seq[:4]) + f", ..<{len(seq)} values>.., "
+                + ', '.join(short_r(v) for v in seq[-2:]))
+        if isinstance(x, list):
+            return '[' + body + ']'
+        if isinstance(x, tuple):
+            return '(' + body + ')'
+        return '{' + body + '}'
+    if isinstance(x, list):
+        return '[' + ', '.join(short_r(v) for v in x) + ']'
+    if isinstance(x, tuple):
+        return '(' + ', '.join(short_r(v) for v in x) + (',)' if len(x) == 1 else ')')
+    return repr(x)
+
+
+def short_r(x):
+    return repr(short(x)) if isinstance(x, str) else short(x)
+
+
+def short_stmt(entry):
+    if entry is None:
+        return None
+    sql, params = entry
+    return f"({short_r(sql)}, {short_r(params)})"
 
 
 def evaluate(case, localise_ok=True):
@@ -311,7 +413,7 @@ def evaluate(case, localise_ok=True):
     descr = describe(case)
     if err is not None:
         return [('rows_match_intent', 'exception-' + type(err).__name__,
-                 f"{descr} raises {type(err).__name__}: {err}  (statement: {log[-1] if log else None})")]
+                 f"{descr} raises {type(err).__name__}: {err}  (statement: {short_stmt(log[-1]) if log else None})")]
     try:
         got = [tuple(r) for r in rows] if not case['scalars'] else list(rows)
     except TypeError:
@@ -327,18 +429,18 @@ def evaluate(case, localise_ok=True):
         else:
             ks = localise(case) if localise_ok else 'unlocalised'
         out.append(('rows_match_intent', ks,
-                    f"{descr} returns {got}, intended {want_c}  (statement: {log[-1] if log else None})"))
+                    f"{descr} returns {short(got)}, intended {short(want_c)}  (statement: {short_stmt(log[-1]) if log else None})"))
     # values bound
     if len(log) != 1:
         out.append(('values_bound', 'statements', f"{descr}: {len(log)} statements executed"))
     else:
         sql, params = log[0]
         if not isinstance(sql, str) or isinstance(params, dict):
-            out.append(('values_bound', 'shape', f"{descr}: execute({sql!r}, {params!r})"))
+            out.append(('values_bound', 'shape', f"{descr}: execute({short_r(sql)}, {short_r(params)})"))
             return out
         if sql.count('?') != len(params):
             out.append(('values_bound', 'placeholder-count',
-                        f"{descr}: {sql.count('?')} placeholders for {len(params)} parameters: {sql!r} {params!r}"))
+                        f"{descr}: {sql.count('?')} placeholders for {len(params)} parameters: {short_r(sql)} {short_r(params)}"))
         exp = [p for c in conj for p in params_of(c)]
         pos, ok = 0, True
         for kind, v in exp:
@@ -351,10 +453,11 @@ def evaluate(case, localise_ok=True):
                 pos += len(v)
         if not ok or pos != len(params):
             out.append(('values_bound', 'parameter-order',
-                        f"{descr}: parameters {params!r}, intended operand values {exp!r}, sql {sql!r}"))
-        for t in sorted(distinctive_texts(conj)):
+                        f"{descr}: parameters {short_r(params)}, intended operand values "
+                        f"{short_r([v for _k, v in exp])}, sql {short_r(sql)}"))
+        for t in sorted(distinctive_texts(conj, select_of(case))):
             if t in sql:
-                out.append(('values_bound', 'value-in-sql', f"{descr}: operand text {t!r} occurs in the SQL {sql!r}"))
+                out.append(('values_bound', 'value-in-sql', f"{descr}: operand text {t!r} occurs in the SQL {short_r(sql)}"))
                 break
     return out
 
@@ -380,14 +483,18 @@ def localise(case):
     cands += [['c2', k, v] for k, v in sorted(case['kwargs'].items())]
     cands.sort(key=lambda f: len(repr(f)))
     for f in cands:
-        sub = mk_case([f], order='id')
+        sub = mk_case([f], order='id', table=case.get('table'))
         if any(cl == 'rows_match_intent' for cl, _k, _t in evaluate(sub, localise_ok=False)):
             c = intent(f)
             if c[0] == 'or':
                 return 'or-empty' if not c[1] else 'or-group'
-            return sorted(leaf_kinds(c))[0]
+            ks = leaf_kinds(c)
+            for long_kind in ('not-in-long', 'in-long'):
+                if long_kind in ks:
+                    return long_kind
+            return sorted(ks - LONG_EVENTS)[0]
     for k, v in sorted(case['kwargs'].items()):
-        sub = mk_case([], {k: v}, order='id')
+        sub = mk_case([], {k: v}, order='id', table=case.get('table'))
         if any(cl == 'rows_match_intent' for cl, _k, _t in evaluate(sub, localise_ok=False)):
             return 'kwargs'
     return 'combination'
@@ -403,7 +510,26 @@ def leaf_kinds(c):
         return {'empty-in'}
     if c[0] == 'cmp' and c[3] is None:
         return {'cmp-null'}
+    if c[0] == 'in' and len(c[3]) > LONG_LIST:
+        return {'in', 'not-in-long' if c[2] else 'in-long'}
     return {c[0]}
+
+
+LONG_EVENTS = {'in-long', 'not-in-long', 'in-long-inside-or', 'not-in-long-inside-or'}
+
+
+def long_events(conj):
+    """reach events of the long value lists: IN / NOT IN with more than LONG_LIST members, at top level
+    (AND-ed) and inside OR groups"""
+    ev = set()
+    for c in conj:
+        ks = leaf_kinds(c)
+        for k in ('in-long', 'not-in-long'):
+            if k in ks:
+                ev.add(k)
+                if c[0] == 'or':
+                    ev.add(k + '-inside-or')
+    return ev
 
 
 def describe(case):
@@ -411,23 +537,27 @@ def describe(case):
         if f is None:
             return 'None'
         if f[0] == 'c':
-            return repr((f[1], f[2], dval(f[3])))
+            return short((f[1], f[2], dval(f[3])))
         if f[0] == 'c2':
-            return repr((f[1], dval(f[2])))
-        return '_or(' + ', '.join([d(x) for x in f[1]] + [f"{k}={dval(v)!r}" for k, v in sorted(f[2].items())]) + ')'
-    parts = [d(f) for f in case['filters']] + [f"{k}={dval(v)!r}" for k, v in sorted(case['kwargs'].items())]
+            return short((f[1], dval(f[2])))
+        return '_or(' + ', '.join([d(x) for x in f[1]] + [f"{k}={short_r(dval(v))}" for k, v in sorted(f[2].items())]) + ')'
+    parts = [d(f) for f in case['filters']] + [f"{k}={short_r(dval(v))}" for k, v in sorted(case['kwargs'].items())]
     if case['order'] is not None:
         parts.append(f"_order_by={case['order']!r}")
     if case['scalars']:
         parts.append("_as_scalars=True")
     dflt = f", order_by={case['default_order']!r}" if case['default_order'] else ''
-    return f"SqlMethod(...{dflt}).{case['api']}(conn, {', '.join(parts)})"
+    tbl = f"'... FROM {table_of(case)[0]}' [{len(table_of(case)[1])} rows]" if case.get('table') else '...'
+    return f"SqlMethod({tbl}{dflt}).{case['api']}(conn, {', '.join(parts)})"
 
 
 # ------------------------------------------------------------------ generation
-def mk_case(filters, kwargs=None, order=None, default_order=None, api='list', scalars=False):
-    return {'filters': filters, 'kwargs': kwargs or {}, 'order': order, 'default_order': default_order,
+def mk_case(filters, kwargs=None, order=None, default_order=None, api='list', scalars=False, table=None):
+    case = {'filters': filters, 'kwargs': kwargs or {}, 'order': order, 'default_order': default_order,
             'api': api, 'scalars': scalars}
+    if table is not None:
+        case['table'] = table
+    return case
 
 
 def values_for(field):
@@ -495,7 +625,151 @@ def g_kwargs(rnd):
     return kw
 
 
+# ---- long value lists on the big table
+def long_list(rnd, field, k, wrap, with_null=False, dup=False):
+    """k members drawn from the pool of the field (about half of them occur in the table)"""
+    k = min(k, len(BIG_POOLS[field]))
+    m = rnd.sample(BIG_POOLS[field], k)
+    if wrap != 'set':
+        if dup:
+            m[rnd.randrange(k)] = m[rnd.randrange(k)]
+            m[0] = m[-1]
+    if with_null:
+        m[rnd.randrange(k)] = None
+    if wrap == 'set':
+        m = list(dict.fromkeys(m))
+    return {wrap: m}
+
+
+def g_long_leaf(rnd, lens, field=None, negated=None):
+    field = field or rnd.choice(['id', 'id', 'n', 's'])
+    k = rnd.choice(lens)
+    k = min(k, len(BIG_POOLS[field]))
+    if negated is None:
+        negated = rnd.random() < .6
+    form = rnd.choice(['op', 'op', 'op', 'cmp', 'c2'] if not negated else ['op', 'op', 'cmp'])
+    wrap = rnd.choice(['list', 'tuple', 'set'] if form == 'op' else ['list', 'tuple'])
+    v = long_list(rnd, field, k, wrap, with_null=rnd.random() < .12, dup=rnd.random() < .3)
+    if form == 'op':
+        op = rnd.choice(['NOT IN', 'NOT IN', 'not in', 'Not In'] if negated else ['IN', 'IN', 'in'])
+        return ['c', field, op, v]
+    if form == 'cmp':
+        return ['c', field, '!=' if negated else '=', v]
+    return ['c2', field, v]
+
+
+def g_big_small_leaf(rnd):
+    """an ordinary condition on the big table"""
+    field = rnd.choice(['id', 'n', 's'])
+    vals = BIG_SCALARS[field]
+    x = rnd.random()
+    if x < .4:
+        return ['c', field, rnd.choice(CMP_OPS), rnd.choice(vals)]
+    if x < .5:
+        return ['c2', field, rnd.choice(vals)]
+    if x < .65:
+        return ['c', field, rnd.choice(['IS NULL', 'IS NOT NULL']), None]
+    if x < .8 and field != 'id':
+        return ['c', field, rnd.choice(['LIKE', 'NOT LIKE']), rnd.choice(BIG_LIKE[field])]
+    nn = [v for v in vals if v is not None]
+    m = rnd.sample(nn, rnd.choice([0, 1, 2, 3]))
+    if rnd.random() < .2:
+        m.append(None)
+    return ['c', field, rnd.choice(['IN', 'NOT IN', '=', '!=']), {rnd.choice(['list', 'tuple']): m}]
+
+
+def gen_big_cases(tier, seed):
+    """long IN / NOT IN value lists (and the lengths around LONG_LIST) against the 1500-row table"""
+    rnd = random.Random(seed * 7919 + 1515)
+    quick = tier == 'quick'
+    lens = LONG_LENS_QUICK if quick else LONG_LENS
+    # 1. every form of a list condition x every length of the ladder, alone
+    forms = [('c', 'IN'), ('c', 'NOT IN'), ('c', '='), ('c', '!='), ('c2', None), ('kw', None), ('c', 'not in')]
+    fields = ['id', 'n', 's']
+    i = 0
+    for k in [LONG_LIST - 1, LONG_LIST] + lens:
+        for form, op in forms:
+            for wrap in ('list', 'tuple', 'set'):
+                if wrap == 'set' and (form != 'c' or op in ('=', '!=')):
+                    continue
+                i += 1
+                if quick and k != lens[0] and i % 4:
+                    continue        # quick: the full grid for the first long length, a quarter of it elsewhere
+                field = fields[i % 3]
+                kk = min(k, len(BIG_POOLS[field]))
+                v = long_list(rnd, field, kk, wrap, dup=(i % 5 == 0))
+                if form == 'c':
+                    yield mk_case([['c', field, op, v]], order='id', table='big')
+                elif form == 'c2':
+                    yield mk_case([['c2', field, v]], order='id', table='big')
+                else:
+                    yield mk_case([], {field: v}, order='id', table='big')
+    # 2. a NULL among the members (NOT IN: no row at all; IN: as without it)
+    for op in ('IN', 'NOT IN', '!='):
+        yield mk_case([['c', 'n', op, long_list(rnd, 'n', lens[0], 'list', with_null=True)]], order='id', table='big')
+    # 3. inside OR groups, AND-ed with each other and with ordinary conditions
+    for k in lens[:2] if quick else lens:
+        a_in = ['c', 'id', 'IN', long_list(rnd, 'id', k, 'list')]
+        a_not = ['c', 'id', 'NOT IN', long_list(rnd, 'id', k, 'tuple')]
+        n_in = ['c', 'n', '=', long_list(rnd, 'n', k, 'list')]
+        n_not = ['c', 'n', 'NOT IN', long_list(rnd, 'n', k, 'set')]
+        s_not = ['c', 's', '!=', long_list(rnd, 's', k, 'tuple')]
+        yield mk_case([['or', [a_not], {}]], order='id', table='big')
+        yield mk_case([['or', [a_in], {}]], order='id', table='big')
+        yield mk_case([['or', [a_not, ['c', 'n', '=', 5]], {}]], order='id', table='big')
+        yield mk_case([['or', [['c', 'n', '<', 5], a_not], {}]], order='n, id', table='big')
+        yield mk_case([['or', [a_in, n_not], {}]], order='id DESC', table='big')
+        yield mk_case([['or', [a_in, s_not], {'n': 7}]], order='id', table='big')
+        yield mk_case([['or', [n_in, ['or', [s_not, ['c', 'id', '>', 1400]], {}]], {}]], order='id', table='big')
+        yield mk_case([['or', [], {'id': long_list(rnd, 'id', k, 'list'), 's': 'v12'}]], order='id', table='big')
+        yield mk_case([a_not, n_not], order='id', table='big')
+        yield mk_case([a_not, s_not, ['c', 'n', '>=', 500]], order='s, id', table='big')
+        yield mk_case([a_in, n_not], order='n DESC, id DESC', table='big', api='all')
+        yield mk_case([a_not, None, ['or', [n_in, ['c', 's', 'LIKE', 'v1%']], {}]], {'n': {'list': [7, 14, 21]}},
+                      order='id', table='big')
+        yield mk_case([s_not], default_order='id', scalars=True, table='big')
+        yield mk_case([n_not], table='big')
+    # 4. seeded trees with at least one long list
+    for _ in range(40 if quick else 1500):
+        filters = []
+        n_f = rnd.choice([1, 1, 2, 2, 3])
+        where_long = rnd.randrange(n_f)
+        for j in range(n_f):
+            x = rnd.random()
+            if j == where_long or x < .2:
+                lf = g_long_leaf(rnd, lens)
+                y = rnd.random()
+                if y < .4:
+                    others = [g_long_leaf(rnd, lens) if rnd.random() < .3 else g_big_small_leaf(rnd)
+                              for _k in range(rnd.choice([0, 1, 1, 2]))]
+                    subs = others + [lf]
+                    rnd.shuffle(subs)
+                    if len(subs) > 1 and rnd.random() < .2:
+                        subs = [['or', subs[:-1], {}], subs[-1]]
+                    filters.append(['or', subs, {}])
+                else:
+                    filters.append(lf)
+            elif x < .3:
+                filters.append(None)
+            else:
+                filters.append(g_big_small_leaf(rnd))
+        kw = {}
+        if rnd.random() < .2:
+            field = rnd.choice(['id', 'n', 's'])
+            if rnd.random() < .5:
+                kw[field] = long_list(rnd, field, rnd.choice(lens), rnd.choice(['list', 'tuple']))
+            else:
+                kw[field] = rnd.choice(BIG_SCALARS[field])
+        yield mk_case(filters, kw, order=rnd.choice(ORDERS), default_order=rnd.choice([None, None, 'id', 'n DESC, id']),
+                      api=rnd.choice(['list', 'list', 'all']), scalars=rnd.random() < .15, table='big')
+
+
 def gen_cases(tier, seed):
+    yield from gen_small_cases(tier, seed)
+    yield from gen_big_cases(tier, seed)
+
+
+def gen_small_cases(tier, seed):
     rnd = random.Random(seed * 104729 + 15)
     leaves = list(all_leaves())
     # 1. every single condition, alone
@@ -554,7 +828,10 @@ def run(b):
                 b.hit('ignored-None-argument')
             if case['kwargs']:
                 b.hit('kwargs-filter')
-            b.case(case, nontrivial=bool(kinds & NULL_SENSITIVE), sample=(b.evaluations % 499 == 0))
+            for ev in long_events(conj) - kinds:
+                b.hit(ev)
+            b.case(case, nontrivial=bool(kinds & NULL_SENSITIVE),
+                   sample=(b.evaluations % 499 == 0 and not case.get('table')))
             res = evaluate(case)
         except Exception as e:      # noqa - bug of this harness
             b.error(f"harness exception {type(e).__name__}: {e} on {case}")
@@ -562,7 +839,7 @@ def run(b):
         for clause, ksuf, text in res:
             b.fail(f"C15.{clause}", f"C15.{clause}:{ksuf}", text, case)
     b.require_reach(['empty-in', 'or', 'or-empty', 'like', 'isnull', 'in', 'cmp', 'cmp-null',
-                     'ignored-None-argument', 'kwargs-filter'])
+                     'ignored-None-argument', 'kwargs-filter'] + sorted(LONG_EVENTS))
 
 
 def replay_case(case):
